@@ -21,6 +21,9 @@ thread_local! {
     static BOOM_CLONE: Cell<u64> = Cell::new(0);
     static DOUBLE_DROP: Cell<bool> = Cell::new(false);
     static DEAD: RefCell<std::collections::HashSet<u64>> = RefCell::new(std::collections::HashSet::new());
+    // the bumpalo side of a history: every identity it ever dropped (never cleared within a history)
+    static BUMP_SIDE: Cell<bool> = Cell::new(false);
+    static BDEAD: RefCell<std::collections::HashSet<u64>> = RefCell::new(std::collections::HashSet::new());
 }
 
 fn fresh_id() -> u64 {
@@ -47,6 +50,12 @@ impl Drop for Tok {
         let fresh = DEAD.with(|d| d.borrow_mut().insert(id));
         if !fresh {
             DOUBLE_DROP.with(|d| d.set(true));
+        }
+        if BUMP_SIDE.with(|b| b.get()) {
+            let first = BDEAD.with(|d| d.borrow_mut().insert(id));
+            if !first {
+                DOUBLE_DROP.with(|d| d.set(true));
+            }
         }
         DROPS.with(|d| d.borrow_mut().push(id));
         if self._pad[0] != id ^ 0x5555 || self._pad[1] != !id {
@@ -225,7 +234,9 @@ impl Iterator for PanicIter {
         self.items.next()
     }
     fn size_hint(&self) -> (usize, Option<usize>) {
-        (self.hint, None)
+        // an odd hint is reported as exact, (n, Some(n)), whatever the iterator really yields:
+        // size_hint is advisory and may lie, a collection must stay memory safe regardless
+        (self.hint, if self.hint % 2 == 1 { Some(self.hint) } else { None })
     }
 }
 
@@ -366,7 +377,8 @@ fn run_bump<'b>(w: &mut World<'b>, op: &Op) -> Obs {
             }
             Op::Splice(s, e, xs, take) => {
                 let src: Vec<Tok> = xs.iter().map(|x| Tok::new(*x)).collect();
-                let mut sp = v.splice((s.clone(), e.clone()), src);
+                let hint = src.len() / 2 + (src.len() % 2);
+                let mut sp = v.splice((s.clone(), e.clone()), PanicIter { items: src.into_iter(), i: 0, boom_at: usize::MAX, hint });
                 let mut got = Vec::new();
                 for _ in 0..*take { if let Some(t) = sp.next() { got.push(t.id); std::mem::forget(t); } }
                 drop(sp);
@@ -421,7 +433,8 @@ fn run_std(w: &mut World, op: &Op) -> Obs {
             }
             Op::Splice(s, e, xs, take) => {
                 let src: Vec<Tok> = xs.iter().map(|x| Tok::new(*x)).collect();
-                let mut sp = v.splice((s.clone(), e.clone()), src);
+                let hint = src.len() / 2 + (src.len() % 2);
+                let mut sp = v.splice((s.clone(), e.clone()), PanicIter { items: src.into_iter(), i: 0, boom_at: usize::MAX, hint });
                 let mut got = Vec::new();
                 for _ in 0..*take { if let Some(t) = sp.next() { got.push(t.id); std::mem::forget(t); } }
                 drop(sp);
@@ -519,6 +532,8 @@ fn run_program(seed: u64, hid: u64, maxops: usize) {
     macro_rules! line { ($($a:tt)*) => {{ writeln!(out, $($a)*).unwrap(); out.flush().unwrap(); }} }
     line!("H id={} seed={} mode={} esize=24 ealign=8", hid, seed, mode);
     DEAD.with(|d| d.borrow_mut().clear());
+    BDEAD.with(|d| d.borrow_mut().clear());
+    BUMP_SIDE.with(|b| b.set(false));
     DOUBLE_DROP.with(|d| d.set(false));
     let mut w = World { bump: Some(&bump), bv: None, sv: None, nb_vec: Some(BVec::new_in(&bump)), nb_str: Some(bumpalo::collections::String::new_in(&bump)), canary: Vec::new() };
     let mut nb_expected: Vec<u64> = Vec::new();
@@ -535,6 +550,18 @@ fn run_program(seed: u64, hid: u64, maxops: usize) {
         // both worlds must see the same identities: ids for this op are drawn once
         let id0 = NEXT_ID.with(|n| n.get());
         let op = gen_op(&mut rng, len);
+        // destructors that panic: one element of the tail that truncate/clear is about to drop
+        let op = match op {
+            Op::Truncate(n, _) if n < len && rng.chance(1, 3) => {
+                let j = n + rng.usize_below(len - n);
+                Op::Truncate(n, vec![w.sv.as_ref().unwrap()[j].id])
+            }
+            Op::Clear if len > 0 && rng.chance(1, 3) => {
+                let j = rng.usize_below(len);
+                Op::Truncate(0, vec![w.sv.as_ref().unwrap()[j].id])
+            }
+            o => o,
+        };
         let id1 = NEXT_ID.with(|n| n.get());
         if let Op::Neighbour(n) = &op {
             for _ in 0..*n {
@@ -562,8 +589,12 @@ fn run_program(seed: u64, hid: u64, maxops: usize) {
         DOUBLE_DROP.with(|d| d.set(false));
         NEXT_ID.with(|n| n.set(id1));
         DEAD.with(|d| d.borrow_mut().clear());
+        BUMP_SIDE.with(|b| b.set(true));
         let bo = run_bump(&mut w, &op);
+        BUMP_SIDE.with(|b| b.set(false));
         let double = DOUBLE_DROP.with(|d| d.replace(dd_before));
+        // nothing the bumpalo vector still holds may have been dropped already
+        let reachable_dead: Vec<u64> = BDEAD.with(|d| bo.contents.iter().copied().filter(|i| d.borrow().contains(i)).collect());
         let next_after_bump = NEXT_ID.with(|n| n.get());
         NEXT_ID.with(|n| n.set(next_after_std.max(next_after_bump)));
         let _ = (id0, std_dead);
@@ -571,6 +602,9 @@ fn run_program(seed: u64, hid: u64, maxops: usize) {
         line!("S {} | {} | {} | {} {} | {}", op.show(), so.res, show_ids(&so.contents), so.len, so.cap, show_ids(&so.drops));
         if double {
             line!("X double_drop_or_corrupt_value");
+        }
+        if !reachable_dead.is_empty() {
+            line!("X dropped_value_reachable ids={}", show_ids(&reachable_dead));
         }
         if !check_neighbours(&mut w, &mut nb_expected, &mut s_expected) {
             line!("X neighbour_disturbed");
@@ -589,7 +623,13 @@ fn run_program(seed: u64, hid: u64, maxops: usize) {
     DOUBLE_DROP.with(|d| d.set(false));
     let bv = w.bv.take().unwrap();
     let before = ids!(bv);
+    if !before.is_empty() && !ended_by_panic && rng.chance(1, 4) {
+        let j = rng.usize_below(before.len());
+        BOOM_DROP.with(|b| *b.borrow_mut() = vec![before[j]]);
+    }
+    BUMP_SIDE.with(|b| b.set(true));
     let r = catch_unwind(AssertUnwindSafe(move || drop(bv)));
+    BUMP_SIDE.with(|b| b.set(false));
     let drops = take_drops();
     line!("V drop | {} | - | 0 0 | {}", if r.is_ok() { "unit" } else { "panic:callback" }, show_ids(&drops));
     if DOUBLE_DROP.with(|d| d.get()) {
@@ -602,6 +642,7 @@ fn run_program(seed: u64, hid: u64, maxops: usize) {
     if a != b {
         line!("X final_drop_mismatch have={} dropped={}", show_ids(&before), show_ids(&drops));
     }
+    BOOM_DROP.with(|b| b.borrow_mut().clear());
     let sv = w.sv.take().unwrap();
     drop(sv);
     take_drops();
@@ -654,7 +695,7 @@ impl Iterator for HintIter {
         }
     }
     fn size_hint(&self) -> (usize, Option<usize>) {
-        (self.hint.min(self.left), None)
+        if self.hint % 2 == 1 { (self.hint, Some(self.hint)) } else { (self.hint.min(self.left), None) }
     }
 }
 
